@@ -1,4 +1,5 @@
 import Ruint.Model.Modular
+import Ruint.Model.ModularLimbs
 /-! Driver for C10: evaluates the model (`Ruint.Modular.*`) and the spec (ℕ arithmetic: `%`, square-and-multiply
     most-significant-bit first, `Nat.gcd` + extended Euclid on ℤ). -/
 open Ruint Ruint.Modular
@@ -44,6 +45,13 @@ def traceOf (bits num modulus : Nat) : List Ruint.Lehmer.Mat :=
     if b = 0 then []
     else invTrace bits (b + 1) { a := modulus, b := b, t0 := 0, t1 := 1, even := true }
 
+/-- a `Uint<bits>` as a limb list -/
+def u (bits v : Nat) : List Nat := toLimbs (nlimbs bits) v
+
+def outL : Option (List Nat) → String
+  | some l => toHex (val l)
+  | none => "panic"
+
 def outOO : Option (Option Nat) → String
   | some r => outO r
   | none => "panic"
@@ -54,9 +62,16 @@ def handle (args : List String) (impl : String) : String × String :=
     let bits := parseDec bs
     let x := parseHex xs; let y := parseHex ys; let m := parseHex zs
     match op with
-    | "add" => (toHex (addMod bits x y m), toHex (if m = 0 then 0 else (x + y) % m))
+    | "add" =>
+        -- limb-level model (cmp, div, overflowing_add, wrapping_sub on limb lists); must agree with the value level
+        let l := ModularL.addMod bits (u bits x) (u bits y) (u bits m)
+        (if l = some (u bits (addMod bits x y m)) then outL l else "model-levels-disagree " ++ outL l,
+         toHex (if m = 0 then 0 else (x + y) % m))
     | "mul" =>
-        (if mulModOverflow bits x y then "panic" else toHex (mulMod bits x y m),
+        -- limb-level model: addmul into nlimbs(2*bits) limbs, then the full `div` model (2N-by-N shape)
+        let l := ModularL.mulMod bits (u bits x) (u bits y) (u bits m)
+        (if l = some (u bits (mulMod bits x y m)) ∧ !mulModOverflow bits x y then outL l
+         else "model-levels-disagree " ++ outL l,
          toHex (if m = 0 then 0 else (x * y) % m))
     | "pow" => (toHex (powMod bits x y m), toHex (if m = 0 then 0 else powNat x y m))
     | _ => ("bad-op", "bad-op")
@@ -64,7 +79,10 @@ def handle (args : List String) (impl : String) : String × String :=
     let bits := parseDec bs
     let x := parseHex xs; let m := parseHex zs
     match op with
-    | "reduce" => (toHex (reduceMod x m), toHex (if m = 0 then 0 else x % m))
+    | "reduce" =>
+        let l := ModularL.reduceMod bits (u bits x) (u bits m)
+        (if l = some (u bits (reduceMod x m)) then outL l else "model-levels-disagree " ++ outL l,
+         toHex (if m = 0 then 0 else x % m))
     | "inv" => (outOO (invMod bits x m), outO (if bits = 0 then none else invSpec x m))
     | "invtr" =>
         -- impl = `<result> | <answers of the real LehmerMatrix::from along the loop>`; the model prints its own
